@@ -11,6 +11,8 @@ from ..loader import AnalysisError, Func, Program, dotted, norm
 from . import common as C
 
 DENSITY_CALL = 'get_density_factor_and_mach_for_altitude'
+ROW_ROLES = ['time', 'range_vector', 'velocity_vector', 'velocity', 'mach', 'spin_drift', 'look_angle', 'density_factor',
+             'drag', 'weight', 'flag']
 
 
 class IntegrateFacts:
@@ -37,7 +39,12 @@ class IntegrateFacts:
                           and isinstance(c.func, ast.Name) and c.func.id == 'create_trajectory_row']
         if len(self.row_calls) < 2:
             raise AnalysisError('_integrate: fewer than two create_trajectory_row call sites')
-        self.row_params = prog.func(C.M_TC, 'create_trajectory_row').positional
+        # the row builder's parameters are known by role; a renamed parameter keeps its role by position
+        actual = prog.func(C.M_TC, 'create_trajectory_row').positional
+        if len(actual) != len(ROW_ROLES):
+            raise AnalysisError(f'create_trajectory_row takes {actual}: not the {len(ROW_ROLES)} roles {ROW_ROLES}')
+        self.row_param_role = dict(zip(actual, ROW_ROLES))
+        self.row_params = list(ROW_ROLES)
         # state roles from the row sites that pass plain names for (time, position, velocity vector)
         roles = None
         for c in self.row_calls:
@@ -92,7 +99,7 @@ class IntegrateFacts:
             out[p] = a
         for k in call.keywords:
             if k.arg:
-                out[k.arg] = k.value
+                out[self.row_param_role.get(k.arg, k.arg)] = k.value
         return out
 
     def defs_reaching(self, at: ast.AST, name: str) -> List[Node]:
